@@ -417,3 +417,44 @@ package multiplex
 //@   requires d.rwCond != nil && holdsNone()
 //@   ensures d.closed && sameSlice(d.pLens, acq(d.pLens)) && buflen(d.buf) == acq(buflen(d.buf))
 //@   flag noframe
+
+// ---------------------------------------------------------------------------------------------
+// streamBufferedPipe (C03, C01): a FIFO of bytes guarded by rwCond.L. A closed pipe keeps serving
+// buffered bytes; EOF only when closed and empty; every state change wakes the waiters (a Broadcast
+// is issued: ghost counter "broadcasts" of the condition variable grows).
+// ---------------------------------------------------------------------------------------------
+//@ guardedby streamBufferedPipe.rwCond.L: buffer(streamBufferedPipe.buf), streamBufferedPipe.closed, streamBufferedPipe.rDeadline, streamBufferedPipe.timeoutTimer
+//@ lockinv streamBufferedPipe.rwCond.L: pipeOK: self.buf != nil && self.rwCond != nil
+
+//@ func (*streamBufferedPipe).broadcastAfter
+//@   flag trusted
+//@   modifies p.timeoutTimer
+
+//@ func (*streamBufferedPipe).Read
+//@   requires p.rwCond != nil && holdsNone()
+//@   ensures eofOnlyWhenClosedAndEmpty: ret1 == io.EOF ==> ret0 == 0 && p.closed && buflen(p.buf) == 0
+//@   ensures noErrorWhileBytesRemain: acq(buflen(p.buf)) > 0 && ret1 != nil ==> ret1 == ErrTimeout
+//@   ensures prefix: ret1 == nil ==> 0 <= ret0 && ret0 <= len(target) && ret0 <= acq(buflen(p.buf)) && (len(target) > 0 ==> ret0 > 0) && (forall i int :: 0 <= i && i < ret0 ==> target[i] == acq(bufbyte(p.buf, i)))
+//@   ensures restKept: ret1 == nil ==> buflen(p.buf) == acq(buflen(p.buf)) - ret0 && (forall k int :: 0 <= k && k < buflen(p.buf) ==> bufbyte(p.buf, k) == acq(bufbyte(p.buf, k + ret0)))
+//@   ensures wakes: ret1 == nil ==> ghostget("broadcasts", p.rwCond) > old(ghostget("broadcasts", p.rwCond))
+//@   flag noframe
+//@   loop 0 invariant lock: holdsOnly(p.rwCond.L) && p.rwCond != nil && p.buf != nil
+//@   loop 0 invariant fresh: buflen(p.buf) == acq(buflen(p.buf)) && p.buf == acq(p.buf) && p.closed == acq(p.closed) && (forall k int :: 0 <= k && k < buflen(p.buf) ==> bufbyte(p.buf, k) == acq(bufbyte(p.buf, k)))
+//@   loop 0 invariant bc: ghostget("broadcasts", p.rwCond) >= old(ghostget("broadcasts", p.rwCond))
+
+//@ func (*streamBufferedPipe).Write
+//@   requires p.rwCond != nil && holdsNone()
+//@   ensures closedRefuses: ret1 == io.ErrClosedPipe ==> ret0 == 0 && buflen(p.buf) == acq(buflen(p.buf))
+//@   ensures appended: ret1 == nil ==> ret0 == len(input) && buflen(p.buf) == acq(buflen(p.buf)) + len(input) && (forall k int :: 0 <= k && k < len(input) ==> bufbyte(p.buf, acq(buflen(p.buf)) + k) == input[k]) && (forall k int :: 0 <= k && k < acq(buflen(p.buf)) ==> bufbyte(p.buf, k) == acq(bufbyte(p.buf, k)))
+//@   ensures wakes: ret1 == nil ==> ghostget("broadcasts", p.rwCond) > old(ghostget("broadcasts", p.rwCond))
+//@   ensures onlyTheseOutcomes: ret1 == nil || ret1 == io.ErrClosedPipe
+//@   flag noframe
+//@   loop 0 invariant lock: holdsOnly(p.rwCond.L) && p.rwCond != nil && p.buf != nil
+//@   loop 0 invariant fresh: buflen(p.buf) == acq(buflen(p.buf)) && p.buf == acq(p.buf) && p.closed == acq(p.closed) && (forall k int :: 0 <= k && k < buflen(p.buf) ==> bufbyte(p.buf, k) == acq(bufbyte(p.buf, k)))
+//@   loop 0 invariant bc: ghostget("broadcasts", p.rwCond) >= old(ghostget("broadcasts", p.rwCond))
+
+//@ func (*streamBufferedPipe).Close
+//@   requires p.rwCond != nil && holdsNone()
+//@   ensures p.closed && buflen(p.buf) == acq(buflen(p.buf)) && ret0 == nil
+//@   ensures wakes: ghostget("broadcasts", p.rwCond) > old(ghostget("broadcasts", p.rwCond))
+//@   flag noframe
